@@ -327,7 +327,7 @@ theorem runViewer_spec (s : State κ γ χ ι ρ δ ν σ) (r : Nat) (v : φ) (d
 /-- Main lemma: from a state satisfying the invariant, an operation returns the output of the stateless
     specification under the limit in force, and leads to a state satisfying the invariant whose limit is
     the configuration after the operation. -/
-theorem step_spec (s : State κ γ χ ι ρ δ ν σ) (op : Op ι φ) (h : Inv P s)
+theorem step_spec (s : State κ γ χ ι ρ δ ν σ) (op : Op κ ι φ) (h : Inv P s)
     (hpos : ∀ n, op = .setLimit n → 0 < n) :
     Inv P (step P s op).1 ∧ (step P s op).2 = pureOut P s.limit op ∧
     (step P s op).1.limit = cfgAfter s.limit op := by
@@ -431,11 +431,16 @@ theorem step_spec (s : State κ γ χ ι ρ δ ν σ) (op : Op ι φ) (h : Inv P
     have : n = 0 := h0
     have := hpos n rfl
     omega
+  | tables k =>
+    obtain ⟨i1, o1, _, l1, _, _⟩ := stageTables_spec P s k h
+    simp only [step, pureOut, cfgAfter]
+    rw [o1]
+    exact ⟨i1, rfl, l1⟩
 
 /-- no `setLimit 0` in a history -/
-def PosLimits (ops : List (Op ι φ)) : Prop := ∀ n, Op.setLimit n ∈ ops → 0 < n
+def PosLimits (ops : List (Op κ ι φ)) : Prop := ∀ n, Op.setLimit n ∈ ops → 0 < n
 
-theorem run_spec (s : State κ γ χ ι ρ δ ν σ) (ops : List (Op ι φ)) (h : Inv P s) (hpos : PosLimits ops) :
+theorem run_spec (s : State κ γ χ ι ρ δ ν σ) (ops : List (Op κ ι φ)) (h : Inv P s) (hpos : PosLimits ops) :
     Inv P (run P s ops).1 ∧ (run P s ops).2 = specRun P s.limit ops := by
   induction ops generalizing s with
   | nil => exact ⟨h, rfl⟩
@@ -446,11 +451,11 @@ theorem run_spec (s : State κ γ χ ι ρ δ ν σ) (ops : List (Op ι φ)) (h 
     exact ⟨i2, by rw [o1, o2, l1]⟩
 
 /-- the limit in force after a history -/
-def cfgRun (lim : Nat) : List (Op ι φ) → Nat
+def cfgRun (lim : Nat) : List (Op κ ι φ) → Nat
   | [] => lim
   | op :: ops => cfgRun (cfgAfter lim op) ops
 
-theorem run_limit (s : State κ γ χ ι ρ δ ν σ) (ops : List (Op ι φ)) (h : Inv P s) (hpos : PosLimits ops) :
+theorem run_limit (s : State κ γ χ ι ρ δ ν σ) (ops : List (Op κ ι φ)) (h : Inv P s) (hpos : PosLimits ops) :
     (run P s ops).1.limit = cfgRun s.limit ops := by
   induction ops generalizing s with
   | nil => rfl
